@@ -2,6 +2,7 @@ package main
 
 import (
 	"fmt"
+	"go/constant"
 	"go/token"
 	"go/types"
 	"sort"
@@ -16,17 +17,17 @@ func init() {
 		Title: "Pickle input is equivalent to the plain-text input for the same datapoints",
 		Decided: "R1 in the item loop of the pickle handler every iteration ends in exactly one of {Dispatcher.Dispatch, IncNumInvalid} and a rejected item continues with the next item (never ends the connection); " +
 			"R2 the sets of dynamic types accepted for the value and for the timestamp are equal (the text path accepts any integer spelling for either); " +
-			"R3 every unchecked type assertion in the handler repeats a checked one on the same operand (no crash on odd items), and the line handed to Dispatch is `name value timestamp` in that order with single spaces; " +
-			"R4 framing: the 4-byte length is read with a full-read primitive in big-endian order into a uint32, the payload loop ends only when the number of bytes read equals that length, and checkProtocol never rejects a prefix produced by pickle protocols 0-4 for a list ( ']' | '(l' | 0x80 v ']' | 0x80 v 0x95 ).",
+			"R3 every unchecked type assertion in the handler repeats a checked one on the same operand (no crash on odd items), and the line handed to Dispatch is `name value timestamp` in that order with single spaces, however it is assembled (concatenation, appends to an empty slice, a helper returning the line); " +
+			"R4 framing: the 4-byte length is read with a full-read primitive (binary.Read, or io.ReadFull into 4 bytes + BigEndian.Uint32, directly or in a helper) in big-endian order into a uint32, the payload loop ends only when the number of bytes read equals that length, and checkProtocol never rejects a prefix produced by pickle protocols 0-4 for a list ( ']' | '(l' | 0x80 v ']' | 0x80 v 0x95 ).",
 		NotDecided: "equivalence with CPython's encoders for every scalar, float formatting, the og-rek decoder (third party), behaviour under every segmentation of the stream (R4 only pins the primitives that make it segmentation-independent).",
 		Rules: []RuleDef{
 			{ID: "C13.R1", Min: 1, Doc: "per-item accounting by path enumeration of one iteration of the item loop (from the loop body entry back to the header)", Run: c13r1},
 			{ID: "C13.R2", Min: 1, Doc: "scalar switches agree: type sets of the comma-ok assertions on data[1] (value) and data[0] (timestamp) are equal", Run: c13r2},
-			{ID: "C13.R3", Min: 2, Doc: "unchecked assertions are dominated by the ok edge of a checked assertion of the same type on the same slot; the dispatched line is built as metric + \" \" + value + \" \" + timestamp", Run: c13r3},
+			{ID: "C13.R3", Min: 2, Doc: "unchecked assertions are dominated by the ok edge of a checked assertion of the same type on the same slot; the dispatched line is assembled from exactly the pieces metric, \" \", value, \" \", timestamp in that order — by string concatenation, by appends to an empty byte slice, by Sprintf/Join, or in a helper that returns the line (opened with its parameters bound to the arguments)", Run: c13r3},
 			{ID: "C13.R6", Min: 3, Doc: "invalid structure is skipped, not indexed: every constant index into an unpickled tuple in the per-item functions is controlled by a length test of the same tuple that excludes every too-short length", Run: c13r6},
 			{ID: "C13.R7", Min: 1, Doc: "handlers are re-entrant: one Handler serves all connections of a listener concurrently, so Handle (and the methods it calls on its receiver) never writes a field of the receiver or hands out the address of one (rule C12.R3 evaluated for this property as well)", Run: c12r3},
 			{ID: "C13.R5", Min: 1, Doc: "one decoder per frame: the receiver of every Decoder.Decode call in the pickle input is the result of ogorek.NewDecoder constructed inside every loop that contains the Decode call (directly, or handed to a helper from such a place) — a decoder kept across frames carries its memo along, and protocol 4 resolves memo references by position", Run: c13r5},
-			{ID: "C13.R4", Min: 3, Doc: "framing primitives: binary.Read(r, BigEndian, *uint32) (or io.ReadFull) for the length; payload loop exit test lengthRead == lengthTotal; checkProtocol truth table over the peeked prefix bytes (reject-direction only)", Run: c13r4},
+			{ID: "C13.R4", Min: 3, Doc: "framing primitives: the length is four bytes read in full and decoded big-endian as a uint32 — binary.Read(r, BigEndian, *uint32), or io.ReadFull over all of a 4-byte buffer that dominates BigEndian.Uint32 of the same buffer, in Handle or in a helper that returns the value; payload loop exit test lengthRead == lengthTotal; checkProtocol truth table over the peeked prefix bytes (reject-direction only)", Run: c13r4},
 		},
 	})
 }
@@ -355,26 +356,21 @@ func c13r3(c *Check) {
 			return
 		}
 		arg := callCommon(in).Args[0]
-		cv, ok := arg.(*ssa.Convert)
+		// the line is judged on the sequence of pieces it is assembled from, however it is assembled
+		// (string concatenation converted to bytes, appends to an empty slice, a formatting helper ...);
+		// helpers that return the line are opened level by level until the pieces show
 		okLine := false
-		if ok {
-			// flatten the + chain
-			var parts []ssa.Value
-			var flat func(v ssa.Value)
-			flat = func(v ssa.Value) {
-				if bo, ok := v.(*ssa.BinOp); ok && bo.Op == token.ADD {
-					flat(bo.X)
-					flat(bo.Y)
-					return
-				}
-				parts = append(parts, v)
+		for depth := 0; depth <= 3 && !okLine; depth++ {
+			alts, ok := lineAlts(arg, depth, map[ssa.Value]bool{})
+			if !ok || len(alts) == 0 {
+				continue
 			}
-			flat(cv.X)
-			if len(parts) == 5 {
-				s1, ok1 := constString(parts[1])
-				s3, ok3 := constString(parts[3])
-				// parts[0] from item[0].(string); parts[2] value phi; parts[4] timestamp phi
-				okLine = ok1 && ok3 && s1 == " " && s3 == " " && parts[0] != parts[2] && parts[2] != parts[4] && valueFromSlot(parts[2], 1) && valueFromSlot(parts[4], 0) && valueFromSlot(parts[0], 0)
+			okLine = true
+			for _, parts := range alts {
+				// parts[0] from item[0].(string); parts[2] value; parts[4] timestamp
+				if !(len(parts) == 5 && isSpacePiece(parts[1]) && isSpacePiece(parts[3]) && parts[0] != parts[2] && parts[2] != parts[4] && valueFromSlot(parts[2], 1) && valueFromSlot(parts[4], 0) && valueFromSlot(parts[0], 0)) {
+					okLine = false
+				}
 			}
 		}
 		c.Judge(okLine, "input.Pickle.Handle line = name + \" \" + value + \" \" + timestamp", c.At(in), "fields in text-protocol order, single spaces; value from data[1], timestamp from data[0]", "the line built from a pickled datapoint does not have the text protocol's field order (name, value, timestamp) or takes value/timestamp from the wrong tuple slot")
@@ -456,55 +452,486 @@ func valueFromSlot(v ssa.Value, k int64) bool {
 	return okAll && any
 }
 
-func c13r4(c *Check) {
-	fn := c.P.Func("input", "*Pickle", "Handle")
-	// (a) length read
-	var lengthAlloc *ssa.Alloc
-	okRead := false
-	var at ssa.Instruction
-	allInstrs(fn, func(in ssa.Instruction) {
-		call, ok := in.(*ssa.Call)
+// isSpacePiece: the piece is the constant " " (as a string) or ' ' (as a byte).
+func isSpacePiece(v ssa.Value) bool {
+	if s, ok := constString(v); ok {
+		return s == " "
+	}
+	if k, ok := v.(*ssa.Const); ok && k.Value != nil && k.Value.Kind() == constant.Int {
+		if b, ok := k.Type().Underlying().(*types.Basic); ok && b.Kind() == types.Uint8 {
+			n, _ := constInt(k)
+			return n == ' '
+		}
+	}
+	return false
+}
+
+func isTextType(t types.Type) bool {
+	switch u := t.Underlying().(type) {
+	case *types.Basic:
+		return u.Info()&types.IsString != 0
+	case *types.Slice:
+		b, ok := u.Elem().Underlying().(*types.Basic)
+		return ok && b.Kind() == types.Uint8
+	}
+	return false
+}
+
+const maxLineAlts = 256
+
+func crossPieces(a, b [][]ssa.Value) ([][]ssa.Value, bool) {
+	if len(a)*len(b) > maxLineAlts {
+		return nil, false
+	}
+	var out [][]ssa.Value
+	for _, x := range a {
+		for _, y := range b {
+			out = append(out, append(append([]ssa.Value{}, x...), y...))
+		}
+	}
+	return out, true
+}
+
+// lineAlts: the sequences of pieces the text value v (a string or a byte slice) is assembled
+// from, in order; one sequence per way of assembling it (a byte slice that differs from path to
+// path, the several returns of a helper). Concatenation, string<->[]byte conversion, appends to
+// an empty slice (make(…, 0, n), nil, x[:0]), fmt.Sprintf with a constant format of %s/%v verbs
+// and strings.Join over a literal list are all the same thing here. A piece is a value that is
+// not assembled further: a field value (however it is chosen or rendered) or a constant.
+// Calls of module helpers that return the text are opened (parameters replaced by the arguments)
+// while depth > 0, and stay pieces otherwise. ok is false when v is not an assembly the rule
+// understands (e.g. appends to a slice that already has a length).
+func lineAlts(v ssa.Value, depth int, seen map[ssa.Value]bool) ([][]ssa.Value, bool) {
+	leaf := [][]ssa.Value{{v}}
+	empty := [][]ssa.Value{{}}
+	switch x := v.(type) {
+	case *ssa.Convert:
+		if isTextType(x.Type()) && isTextType(x.X.Type()) {
+			return lineAlts(x.X, depth, seen)
+		}
+	case *ssa.ChangeType:
+		return lineAlts(x.X, depth, seen)
+	case *ssa.BinOp:
+		if x.Op == token.ADD && isTextType(x.Type()) {
+			a, ok1 := lineAlts(x.X, depth, seen)
+			b, ok2 := lineAlts(x.Y, depth, seen)
+			if !ok1 || !ok2 {
+				return nil, false
+			}
+			return crossPieces(a, b)
+		}
+	case *ssa.Const:
+		if x.Value == nil && isTextType(x.Type()) {
+			return empty, true
+		}
+		if s, ok := constString(x); ok && s == "" {
+			return empty, true
+		}
+	case *ssa.MakeSlice:
+		if n, ok := constInt(x.Len); ok && n == 0 {
+			return empty, true
+		}
+		return nil, false
+	case *ssa.Slice:
+		if x.High != nil {
+			if n, ok := constInt(x.High); ok && n == 0 {
+				return empty, true
+			}
+		}
+	case *ssa.Phi:
+		if _, isSlice := x.Type().Underlying().(*types.Slice); !isSlice {
+			// a string chosen by path is one field value (valueFromSlot looks at every edge)
+			return leaf, true
+		}
+		if seen[x] {
+			return nil, false
+		}
+		seen[x] = true
+		defer delete(seen, x)
+		var out [][]ssa.Value
+		for _, e := range x.Edges {
+			a, ok := lineAlts(e, depth, seen)
+			if !ok {
+				return nil, false
+			}
+			out = append(out, a...)
+		}
+		return out, len(out) <= maxLineAlts
+	case *ssa.Extract:
+		if call, ok := x.Tuple.(*ssa.Call); ok {
+			if alts, ok, opened := helperLineAlts(call, x.Index, depth, seen); opened {
+				return alts, ok
+			}
+		}
+	case *ssa.Call:
+		switch calleeName(x.Common()) {
+		case "builtin.append":
+			if len(x.Call.Args) != 2 {
+				return nil, false
+			}
+			base, ok := lineAlts(x.Call.Args[0], depth, seen)
+			if !ok {
+				return nil, false
+			}
+			var add [][]ssa.Value
+			if elems, ok := variadicElems(x.Call.Args[1]); ok {
+				add = [][]ssa.Value{elems}
+			} else if add, ok = lineAlts(x.Call.Args[1], depth, seen); !ok {
+				return nil, false
+			}
+			return crossPieces(base, add)
+		case "fmt.Sprintf":
+			if pieces, ok := sprintfPieces(x); ok {
+				return expandPieces(pieces, depth, seen)
+			}
+		case "strings.Join":
+			if elems, ok := variadicElems(x.Call.Args[0]); ok {
+				if sep, ok := constString(x.Call.Args[1]); ok {
+					var pieces []ssa.Value
+					for i, e := range elems {
+						if i > 0 && sep != "" {
+							pieces = append(pieces, ssa.NewConst(constant.MakeString(sep), types.Typ[types.String]))
+						}
+						pieces = append(pieces, e)
+					}
+					return expandPieces(pieces, depth, seen)
+				}
+			}
+		default:
+			if alts, ok, opened := helperLineAlts(x, 0, depth, seen); opened {
+				return alts, ok
+			}
+		}
+	}
+	return leaf, true
+}
+
+// expandPieces: the alternatives of a sequence whose pieces may be assemblies themselves.
+func expandPieces(pieces []ssa.Value, depth int, seen map[ssa.Value]bool) ([][]ssa.Value, bool) {
+	out := [][]ssa.Value{{}}
+	for _, p := range pieces {
+		a, ok := lineAlts(p, depth, seen)
 		if !ok {
+			return nil, false
+		}
+		if out, ok = crossPieces(out, a); !ok {
+			return nil, false
+		}
+	}
+	return out, true
+}
+
+// sprintfPieces: fmt.Sprintf with a constant format made of literal text and plain %s / %v verbs
+// over text operands (two or more: a single verb renders one field value, which is a piece).
+func sprintfPieces(call *ssa.Call) ([]ssa.Value, bool) {
+	if len(call.Call.Args) != 2 {
+		return nil, false
+	}
+	format, ok := constString(call.Call.Args[0])
+	if !ok {
+		return nil, false
+	}
+	elems, ok := variadicElems(call.Call.Args[1])
+	if !ok {
+		return nil, false
+	}
+	var out []ssa.Value
+	lit := ""
+	flush := func() {
+		if lit != "" {
+			out = append(out, ssa.NewConst(constant.MakeString(lit), types.Typ[types.String]))
+			lit = ""
+		}
+	}
+	k := 0
+	for i := 0; i < len(format); i++ {
+		if format[i] != '%' {
+			lit += string(format[i])
+			continue
+		}
+		i++
+		if i >= len(format) {
+			return nil, false
+		}
+		switch format[i] {
+		case '%':
+			lit += "%"
+		case 's', 'v':
+			if k >= len(elems) || !isTextType(elems[k].Type()) {
+				return nil, false
+			}
+			flush()
+			out = append(out, elems[k])
+			k++
+		default:
+			return nil, false
+		}
+	}
+	flush()
+	if k != len(elems) || k < 2 {
+		return nil, false
+	}
+	return out, true
+}
+
+// helperLineAlts opens a call of a module helper that returns the text as result idx: the
+// alternatives of every return that hands out a line (a return whose other results say
+// "rejected" — a constant false or an error — hands out none), with the helper's parameters
+// replaced by the arguments of this call. opened is false when the call is not opened (not a
+// module function with a body, or depth exhausted): the call then stays a piece.
+func helperLineAlts(call *ssa.Call, idx int, depth int, seen map[ssa.Value]bool) (alts [][]ssa.Value, ok bool, opened bool) {
+	g := call.Call.StaticCallee()
+	if g == nil || g.Blocks == nil || !ModuleFunc(g) || depth <= 0 {
+		return nil, false, false
+	}
+	if idx >= g.Signature.Results().Len() || !isTextType(g.Signature.Results().At(idx).Type()) {
+		return nil, false, false
+	}
+	if seen[call] {
+		return nil, false, true
+	}
+	seen[call] = true
+	defer delete(seen, call)
+	errType := types.Universe.Lookup("error").Type()
+	for _, b := range g.Blocks {
+		if len(b.Instrs) == 0 {
+			continue
+		}
+		ret, isRet := b.Instrs[len(b.Instrs)-1].(*ssa.Return)
+		if !isRet {
+			continue
+		}
+		if idx >= len(ret.Results) {
+			return nil, false, true
+		}
+		rejecting := false
+		for j, o := range ret.Results {
+			if j == idx {
+				continue
+			}
+			if v, isBool := constBool(o); isBool && !v {
+				rejecting = true
+			}
+			if k, isConst := o.(*ssa.Const); types.Identical(o.Type(), errType) && !(isConst && k.IsNil()) {
+				rejecting = true
+			}
+		}
+		if rejecting {
+			continue
+		}
+		inner, ok := lineAlts(ret.Results[idx], depth-1, seen)
+		if !ok {
+			return nil, false, true
+		}
+		for _, pieces := range inner {
+			// parameters of the helper stand for the arguments of this call
+			subst := make([]ssa.Value, len(pieces))
+			for i, p := range pieces {
+				subst[i] = p
+				if par, isPar := p.(*ssa.Parameter); isPar && par.Parent() == g {
+					for pi, q := range g.Params {
+						if q == par && pi < len(call.Call.Args) {
+							subst[i] = call.Call.Args[pi]
+						}
+					}
+				}
+			}
+			ex, ok := expandPieces(subst, depth-1, seen)
+			if !ok {
+				return nil, false, true
+			}
+			alts = append(alts, ex...)
+		}
+	}
+	return alts, len(alts) > 0 && len(alts) <= maxLineAlts, true
+}
+
+// frameLengthValue finds in f (or in a helper of the same package that f calls and that returns
+// a uint32) the value that holds the frame length announced by the 4-byte header, provided it is
+// obtained in a way that does not depend on how the stream is segmented:
+//   - binary.Read(r, binary.BigEndian, p) with p a *uint32 — src is the variable p points to;
+//   - io.ReadFull(r, b) (or io.ReadAtLeast(r, b, n>=4)) over all of a 4-byte buffer b, executed
+//     before binary.BigEndian.Uint32(b) on every path — src is the decoded value;
+//   - a helper doing one of these whose uint32 result is that value on every return (constants
+//     only next to a non-nil error) — src is the call.
+//
+// at is the instruction that reads or decodes the header (for the position), also when it is not
+// an accepted one.
+func frameLengthValue(p *Prog, f *ssa.Function, depth int) (src ssa.Value, at ssa.Instruction, ok bool) {
+	isBigEndian := func(v ssa.Value) bool {
+		if mi, isMI := v.(*ssa.MakeInterface); isMI {
+			v = mi.X
+		}
+		if u, isLoad := v.(*ssa.UnOp); isLoad && u.Op == token.MUL {
+			if g, isG := u.X.(*ssa.Global); isG && g.Name() == "BigEndian" && g.Pkg != nil && g.Pkg.Pkg.Path() == "encoding/binary" {
+				return true
+			}
+		}
+		return false
+	}
+	var fullReads []*ssa.Call
+	allInstrs(f, func(in ssa.Instruction) {
+		call, isCall := in.(*ssa.Call)
+		if !isCall {
 			return
 		}
 		switch calleeName(call.Common()) {
-		case "encoding/binary.Read":
-			at = in
-			ord := call.Call.Args[1]
-			isBE := false
-			if mi, ok := ord.(*ssa.MakeInterface); ok {
-				if u, ok := mi.X.(*ssa.UnOp); ok {
-					if g, ok := u.X.(*ssa.Global); ok && g.Name() == "BigEndian" {
-						isBE = true
-					}
-				}
-			}
-			if mi, ok := call.Call.Args[2].(*ssa.MakeInterface); ok {
-				if al, ok := mi.X.(*ssa.Alloc); ok {
-					if b, ok := al.Type().(*types.Pointer).Elem().Underlying().(*types.Basic); ok && b.Kind() == types.Uint32 && isBE {
-						okRead = true
-						lengthAlloc = al
-					}
-				}
+		case "io.ReadFull":
+			fullReads = append(fullReads, call)
+		case "io.ReadAtLeast":
+			if n, isConst := constInt(call.Call.Args[2]); isConst && n >= 4 {
+				fullReads = append(fullReads, call)
 			}
 		}
 	})
+	errType := types.Universe.Lookup("error").Type()
+	allInstrs(f, func(in ssa.Instruction) {
+		call, isCall := in.(*ssa.Call)
+		if !isCall {
+			return
+		}
+		name := calleeName(call.Common())
+		switch {
+		case name == "encoding/binary.Read":
+			at = in
+			if mi, isMI := call.Call.Args[2].(*ssa.MakeInterface); isMI && isBigEndian(call.Call.Args[1]) {
+				if al, isAl := mi.X.(*ssa.Alloc); isAl {
+					if b, isB := al.Type().(*types.Pointer).Elem().Underlying().(*types.Basic); isB && b.Kind() == types.Uint32 {
+						src, ok = al, true
+					}
+				}
+			}
+		case strings.HasPrefix(name, "(encoding/binary.") && strings.HasSuffix(name, ").Uint32"):
+			// BigEndian.Uint32(b), directly or through the ByteOrder interface
+			var order, buf ssa.Value
+			if call.Call.IsInvoke() {
+				order, buf = call.Call.Value, call.Call.Args[0]
+			} else if len(call.Call.Args) == 2 {
+				order, buf = call.Call.Args[0], call.Call.Args[1]
+			}
+			if at == nil {
+				at = in
+			}
+			if order == nil || !isBigEndian(order) {
+				return
+			}
+			base, isFour := fourByteBuffer(buf)
+			if !isFour {
+				return
+			}
+			for _, rd := range fullReads {
+				if rb, isFour := fourByteBuffer(rd.Call.Args[1]); isFour && rb == base && instrDominates(rd, call) {
+					src, ok, at = call, true, in
+				}
+			}
+		default:
+			g := call.Call.StaticCallee()
+			if g == nil || g.Blocks == nil || depth >= 2 || fnPkg(g) != fnPkg(f) || g == f {
+				return
+			}
+			res := g.Signature.Results()
+			k := -1
+			for i := 0; i < res.Len(); i++ {
+				if b, isB := res.At(i).Type().Underlying().(*types.Basic); isB && b.Kind() == types.Uint32 {
+					k = i
+				}
+			}
+			if k < 0 {
+				return
+			}
+			gsrc, gat, gok := frameLengthValue(p, g, depth+1)
+			if gat == nil {
+				return
+			}
+			at = in
+			if !gok {
+				return
+			}
+			good := true
+			for _, b := range g.Blocks {
+				if len(b.Instrs) == 0 {
+					continue
+				}
+				ret, isRet := b.Instrs[len(b.Instrs)-1].(*ssa.Return)
+				if !isRet {
+					continue
+				}
+				r := ret.Results[k]
+				if derivedFrom(r, gsrc, map[ssa.Value]bool{}) {
+					continue
+				}
+				failing := false
+				for _, o := range ret.Results {
+					if kc, isConst := o.(*ssa.Const); types.Identical(o.Type(), errType) && !(isConst && kc.IsNil()) {
+						failing = true
+					}
+				}
+				if _, isConst := r.(*ssa.Const); !isConst || !failing {
+					good = false
+				}
+			}
+			if good {
+				src, ok = call, true
+			}
+		}
+	})
+	return
+}
+
+// fourByteBuffer: v is all of a 4-byte buffer — a[:] (or a[0:4]) of a [4]byte array, or a
+// make([]byte, 4) (possibly resliced in full); base identifies the buffer.
+func fourByteBuffer(v ssa.Value) (base ssa.Value, ok bool) {
+	isByte := func(t types.Type) bool {
+		b, isB := t.Underlying().(*types.Basic)
+		return isB && b.Kind() == types.Uint8
+	}
+	switch x := v.(type) {
+	case *ssa.MakeSlice:
+		if n, isConst := constInt(x.Len); isConst && n == 4 && isByte(x.Type().Underlying().(*types.Slice).Elem()) {
+			return x, true
+		}
+	case *ssa.Slice:
+		if x.Low != nil {
+			if n, isConst := constInt(x.Low); !isConst || n != 0 {
+				return nil, false
+			}
+		}
+		if x.High != nil {
+			if n, isConst := constInt(x.High); !isConst || n != 4 {
+				return nil, false
+			}
+		}
+		if pt, isPtr := x.X.Type().Underlying().(*types.Pointer); isPtr {
+			if arr, isArr := pt.Elem().Underlying().(*types.Array); isArr && arr.Len() == 4 && isByte(arr.Elem()) {
+				return x.X, true
+			}
+			return nil, false
+		}
+		return fourByteBuffer(x.X)
+	}
+	return nil, false
+}
+
+func c13r4(c *Check) {
+	fn := c.P.Func("input", "*Pickle", "Handle")
+	// (a) length read
+	lengthSrc, at, okRead := frameLengthValue(c.P, fn, 0)
 	pos := c.AtFn(fn)
 	if at != nil {
 		pos = c.At(at)
 	}
-	c.Judge(okRead, "input.Pickle.Handle length header read", pos, "binary.Read(r, binary.BigEndian, *uint32): reads all four bytes whatever the segmentation", "the frame length is not read with binary.Read(…, BigEndian, *uint32): a partial Read of the header (segment boundary inside the 4 bytes) yields a wrong length and kills the connection")
+	c.Judge(okRead, "input.Pickle.Handle length header read", pos, "four header bytes read in full and decoded big-endian as a uint32 (binary.Read(r, binary.BigEndian, *uint32), or io.ReadFull into 4 bytes + BigEndian.Uint32), whatever the segmentation", "the frame length is not read with binary.Read(…, BigEndian, *uint32) or an equivalent full read of four bytes decoded big-endian: a partial Read of the header (segment boundary inside the 4 bytes) yields a wrong length and kills the connection")
 	// (b) payload loop exit
 	okExit := false
 	// the chunk loop may live in a helper that is given the frame length
 	for _, f := range samePkgCallees(c.P, fn) {
 		f := f
 		fromLen := func(v ssa.Value) bool {
-			if lengthAlloc == nil {
+			if lengthSrc == nil {
 				return false
 			}
 			if f == fn {
-				return derivedFrom(v, lengthAlloc, map[ssa.Value]bool{})
+				return derivedFrom(v, lengthSrc, map[ssa.Value]bool{})
 			}
 			for _, par := range f.Params {
 				if !derivedFrom(v, par, map[ssa.Value]bool{}) {
@@ -516,7 +943,7 @@ func c13r4(c *Check) {
 				}
 				all := true
 				for _, a := range args {
-					if !derivedFrom(a, lengthAlloc, map[ssa.Value]bool{}) {
+					if !derivedFrom(a, lengthSrc, map[ssa.Value]bool{}) {
 						all = false
 					}
 				}
